@@ -14,6 +14,7 @@ pub enum Effect {
     Shutdown,                                // transport writer shutdown attempted
     Drew { pkt: u32, sizes: Seq<i32> },      // padding sizes drawn for session packet `pkt`
     HeartbeatSeen,                           // last_received refreshed
+    Submit { frame: FrameS },                // ghost bookkeeping: a frame accepted by write_frame (its wire effect is write_frame's own postcondition)
 }
 
 pub mod atomic_shim {
@@ -230,6 +231,7 @@ pub struct SessionState {
     pub buffer: Vec<u8>,
     pub hb_last_received: Instant,
     pub fx: Ghost<Seq<Effect>>,
+    pub ghost acq_writer: nat,      // how many times the transport-writer lock has been acquired (rule L counter)
 }
 impl SessionState {
     // representation invariant of the two stream tables
@@ -285,6 +287,12 @@ pub broadcast proof fn lemma_shutdown_push(fx: Seq<Effect>, e: Effect)
 pub broadcast proof fn lemma_deliveries_push(fx: Seq<Effect>, e: Effect)
     ensures #[trigger] deliveries(fx.push(e)) == (match e { Effect::Send { .. } => deliveries(fx).push(e), Effect::NewStream { .. } => deliveries(fx).push(e), Effect::NotifySynack { .. } => deliveries(fx).push(e), Effect::CloseWithError { .. } => deliveries(fx).push(e), _ => deliveries(fx) })
 { assert(fx.push(e).drop_last() =~= fx); assert(fx.push(e).last() == e); }
-pub broadcast group group_proj { lemma_closed_push, lemma_failed_push, lemma_waiters_push, lemma_shutdown_push, lemma_deliveries_push }
+// the frames handed to write_frame, in order
+pub open spec fn submitted(fx: Seq<Effect>) -> Seq<FrameS> decreases fx.len()
+{ if fx.len() == 0 { Seq::empty() } else { let r = submitted(fx.drop_last()); match fx.last() { Effect::Submit { frame } => r.push(frame), _ => r } } }
+pub broadcast proof fn lemma_submitted_push(fx: Seq<Effect>, e: Effect)
+    ensures #[trigger] submitted(fx.push(e)) == (match e { Effect::Submit { frame } => submitted(fx).push(frame), _ => submitted(fx) })
+{ assert(fx.push(e).drop_last() =~= fx); assert(fx.push(e).last() == e); }
+pub broadcast group group_proj { lemma_closed_push, lemma_failed_push, lemma_waiters_push, lemma_shutdown_push, lemma_deliveries_push, lemma_submitted_push }
 // module paths as written in the source
 pub mod tokio { pub mod sync { pub use super::super::oneshot; pub use super::super::mpsc; pub use super::super::tsync::Mutex; } pub mod time { pub use super::super::time::*; pub use super::super::Duration; pub use super::super::Instant; } }
